@@ -410,7 +410,7 @@ pub fn run(tier: &str) -> i32 {
             alpha,
             oracle: C20,
         };
-        let e = explore(&m, &Limits::new(2, if quick { 55 } else { 6000 }));
+        let e = explore(&m, &Limits::new(2, if quick { 300 } else { 6000 }));
         rep.absorb(
             &format!("LEDGER net={} theta={} n={} D={:?} bodies={:?} special<={} budgets={:?} upgrades<={}", net, theta, n, diffs, bodies, sp, budgets, ups),
             e,
